@@ -22,9 +22,16 @@
 
 #include "galois/config.h"
 
+#ifdef GALOIS_VERIF
+extern "C" void galois_verif_spin(void);
+#endif
+
 namespace galois::substrate {
 
 inline static void asmPause() {
+#ifdef GALOIS_VERIF
+  galois_verif_spin();
+#endif
 #if defined(__i386__) || defined(__amd64__)
   //  __builtin_ia32_pause();
   asm volatile("pause");
